@@ -136,6 +136,16 @@ def check(prog, rep):
                 rep.ob("R15.2", f"{label}[{k}]", False, f"{r.name} has its own arm for {k} but {i.name} handles it in the arm for {ai.kinds}: the deep-tree path treats {k} nodes differently from the shallow path", loc=f"{i.module.rel}:{ai.lineno}", detail="leaf")
                 continue
             a, b = _leaf_sig(ar, dr.subject), _leaf_sig(ai, di.subject)
+            why = None
+            if k == "Variable":
+                ra, rb = _input_reads(ar), _input_reads(ai)
+                if ra and rb and ra != rb and {"item"} in (ra, rb) and {"subscript"} in (ra, rb):
+                    py, npy = (r.name, i.name) if ra == {"item"} else (i.name, r.name)
+                    why = (f"{npy} reads a variable as `x[i]` (a NumPy scalar: 1/0 is inf, a negative base to a fractional power is nan, overflow is inf), {py} as `x.item(i)` (a Python float: "
+                           f"ZeroDivisionError, a complex number, OverflowError): the same formula at the same point evaluates differently depending on which builder the tree's depth selects")
+            if why:
+                rep.ob("R15.2", f"{label}[{k}]", False, why, loc=f"{i.module.rel}:{ai.lineno}", detail="leaf-contradiction", robust=True)
+                continue
             if a != b:
                 # positive contradictions between two arms that are both plain code (no helper decides anything):
                 pa, pb = _leaf_parts(ar, dr.subject), _leaf_parts(ai, di.subject)
@@ -361,6 +371,31 @@ def _leaf_sig(arm, subj):
             if isinstance(n, ast.Call) and dotted(n.func) == "Constant" and n.args and isinstance(n.args[0], ast.Constant):
                 consts.append(n.args[0].value)
     return f"build-time reads {sorted(build)}, call-time reads {sorted(call_time)}, tests {sorted(cmps)}, constants {consts}"
+
+
+def _input_reads(arm):
+    """How the closures built in a leaf arm read the point they are called with: {"subscript"} for `x[i]`,
+    {"item"} for `x.item(i)`; anything else (a conversion, a helper) adds "other"."""
+    out = set()
+    for st in arm.body:
+        for lam in ast.walk(st):
+            if not isinstance(lam, ast.Lambda) or not lam.args.args:
+                continue
+            x = lam.args.args[0].arg
+            parents = {}
+            for n in ast.walk(lam.body):
+                for c in ast.iter_child_nodes(n):
+                    parents[id(c)] = n
+            for n in ast.walk(lam.body):
+                if isinstance(n, ast.Name) and n.id == x:
+                    p = parents.get(id(n))
+                    if isinstance(p, ast.Subscript) and p.value is n:
+                        out.add("subscript" if parents.get(id(p)) is None else "other")
+                    elif isinstance(p, ast.Attribute) and p.attr == "item" and isinstance(parents.get(id(p)), ast.Call) and parents.get(id(parents.get(id(p)))) is None:
+                        out.add("item")
+                    else:
+                        out.add("other")
+    return out
 
 
 def _leaf_parts(arm, subj):
